@@ -91,7 +91,7 @@ pub fn check_li(r: &mut Recorder, input: &[u8], exp: &Value) {
             }
             // 'und' is the empty language, and the only one (C15); one representation (C12)
             if v.language.is_empty() != (v.language.as_str() == "und") || (v.language.is_empty() && v.language != Language::default()) {
-                r.dis(&["C15", "C12"], "und-has-two-representations", det(input, json!("und <=> is_empty <=> == default()"), json!({"as_str": v.language.as_str(), "is_empty": v.language.is_empty()})));
+                r.dis(&["C15", "C12", "C02"], "und-has-two-representations", det(input, json!("und <=> is_empty <=> == default()"), json!({"as_str": v.language.as_str(), "is_empty": v.language.is_empty()})));
             }
             // C13: Locale accepts it with an identical id, no extensions, same text
             match guard(|| Locale::from_bytes(input)) {
